@@ -238,7 +238,11 @@ func c17Scenarios(cfg runCfg) []Scenario {
 	n := cfg.n(4000, 10)
 	for i := 0; i < n; i++ {
 		if cfg.mine(i) {
-			out = append(out, Scenario{Family: "dir", Seed: mix(cfg.seed, 17, uint64(i)), K: 1 + i%6})
+			fam := "dir"
+			if mix(cfg.seed, 1717, uint64(i))%5 == 0 {
+				fam = "explicit"
+			}
+			out = append(out, Scenario{Family: fam, Seed: mix(cfg.seed, 17, uint64(i)), K: 1 + i%6})
 		}
 	}
 	return out
@@ -286,6 +290,32 @@ func c17Run(t *testing.T, sc Scenario, res *Result) {
 		return
 	}
 	valid, _ := os.ReadFile(genFiles[0])
+	if sc.Family == "explicit" {
+		// an unusable file given with -rapid.failfile must not change what happens to the usable, still failing
+		// fail file in the test's own directory (whatever the two files are called)
+		plain := runBody(body(thrLow), runOpts{name: name, flags: fl})
+		wd, _ := os.Getwd()
+		other, _ := os.MkdirTemp(wd, "elsewhere")
+		defer os.RemoveAll(other)
+		bad := filepath.Join(other, filepath.Base(genFiles[0]))
+		if r.chance(1, 3) {
+			bad = filepath.Join(other, "unrelated.fail")
+		}
+		junk := valid[:r.intn(len(valid))]
+		if r.chance(1, 3) {
+			junk = []byte("garbage")
+		}
+		os.WriteFile(bad, junk, 0o644)
+		with := runBody(body(thrLow), runOpts{name: name, flags: flagsWith(fl, "rapid.failfile", bad)})
+		res.inc("directories")
+		res.inc("explicit_unusable_plus_valid")
+		res.nontrivial("explicit/" + filepath.Base(bad) + fmt.Sprint(len(junk)))
+		if with.rp.Kind != plain.rp.Kind || with.rp.M != plain.rp.M || with.rp.N != plain.rp.N {
+			res.violate(sc, "c17/explicit-verdict", fmt.Sprintf("an unusable -rapid.failfile changed the verdict: %q vs %q without the flag", clip(with.rp.Raw+with.rp.Kind, 160), clip(plain.rp.Raw+plain.rp.Kind, 160)),
+				map[string]any{"explicit": bad, "directory_file": genFiles[0], "with_flag": with.tb.brief(), "without_flag": plain.tb.brief()})
+		}
+		return
+	}
 	os.RemoveAll("testdata")
 
 	// baseline: same Check, same seed, empty directory
